@@ -385,7 +385,42 @@ func (x *Exec) call(fr *Frame, st *State, c *ssa.CallCommon, pos token.Pos, site
 	if fv.K == KFunc && fv.Fn != nil {
 		return x.callFunction(fr, st, fv.Fn, args, fv.Binds, pos, resT)
 	}
+	// a function stored in a struct field (hooks such as deleteFileFunc): a contract "iface T.f" without
+	// a modifies clause states the ASSUMED frame "whatever is stored there touches no state modelled here"
+	if tn, fname := dynCallFieldOwner(c.Value); tn != nil {
+		if pi := x.vc.uni.pkgs[pkgPathOf(tn)]; pi != nil && pi.Contracts != nil {
+			if fc := pi.Contracts.Funcs[tn.Obj().Name()+"."+fname]; fc != nil && fc.Iface && !fc.ModAll && len(fc.Modifies) == 0 {
+				x.note("assumed frame: the function stored in field " + tn.Obj().Name() + "." + fname + " changes no state the contracts talk about")
+				return x.havocCall(fr, st, "field function "+fname, resT, false)
+			}
+		}
+	}
 	return x.havocCall(fr, st, "dynamic call", resT, true)
+}
+
+// dynCallFieldOwner: for a call whose function value is loaded from a field of a named struct type, that type and the field name.
+func dynCallFieldOwner(v ssa.Value) (*types.Named, string) {
+	u, ok := v.(*ssa.UnOp)
+	if !ok {
+		return nil, ""
+	}
+	fa, ok := u.X.(*ssa.FieldAddr)
+	if !ok {
+		return nil, ""
+	}
+	pt, ok := fa.X.Type().Underlying().(*types.Pointer)
+	if !ok {
+		return nil, ""
+	}
+	n, ok := types.Unalias(pt.Elem()).(*types.Named)
+	if !ok {
+		return nil, ""
+	}
+	st, ok := n.Underlying().(*types.Struct)
+	if !ok {
+		return nil, ""
+	}
+	return n, st.Field(fa.Field).Name()
 }
 
 func (x *Exec) callFunction(fr *Frame, st *State, callee *ssa.Function, args []Value, binds []Value, pos token.Pos, resT types.Type) Value {
